@@ -253,6 +253,7 @@ struct ChaosTls {
   uint64_t delays[kMaxPoint];
   uint64_t overlaps[kMaxPoint];        // delays during which foreign operations completed
   uint64_t sig[kMaxPoint];             // bitset over cur_op: (point, op) pairs that overlapped
+  uint32_t prob_div;                   // this thread's delay probabilities are divided by prob_div (0 = 1)
   uint64_t last_arrival;               // engine use
   const void *last_obj;
 };
@@ -350,7 +351,7 @@ ClientPoint(int id)
   auto &t = t_chaos;
   if (!t.enabled) return;
   ++t.hits[id];
-  if ((t.rng.Next() & 0xFFFF) < g_plan.prob[id]) ChaosDelay(id);
+  if ((t.rng.Next() & 0xFFFF) * (t.prob_div ? t.prob_div : 1U) < g_plan.prob[id]) ChaosDelay(id);
 }
 
 /*------------------------------------------------------------------------------
@@ -489,7 +490,7 @@ Point(int id, const void *obj) noexcept
   if (!t.enabled || id < 0 || id >= vf::kMaxPoint) return;
   ++t.hits[id];
   const auto p = vf::g_plan.prob[id];
-  if (p != 0 && (t.rng.Next() & 0xFFFF) < p) vf::ChaosDelay(id);
+  if (p != 0 && (t.rng.Next() & 0xFFFF) * (t.prob_div ? t.prob_div : 1U) < p) vf::ChaosDelay(id);
 }
 }  // namespace dbgroup::verif
 #endif  // VERIF_MAIN_TU
